@@ -45,6 +45,7 @@ func (c06) Plan(tier string, seed int64) []mon.Workload {
 		{Name: "pairs", N: pairs, Exhaustive: true},
 		{Name: "trees", N: trees},
 		{Name: "extended-layout", N: ext},
+		{Name: "after-rejected", N: ext},
 	}
 }
 
@@ -132,12 +133,29 @@ func (k c06) Describe(c *mon.Ctx, workload string, i int64) any {
 	return map[string]any{"source": gt.Print(stmts, nil), "tree": gt.DumpStmts(stmts)}
 }
 
+// after-rejected: the same round trip, but every parse is preceded by the
+// parse of a REJECTED text (brackets, strings, blocks left open; stray
+// characters; a lexer error inside nesting) on the same goroutine, so that
+// the recycled parser object meets the valid text next. The tree of a text
+// does not depend on what was parsed before it.
+var c06Rejected = []string{"f(", "x = [1, 2", "g(a, \"unterminated", "h(a $ b)", "{", "a[", "x = \"\"\"abc", "x = `raw", "x = (1 +", "if a {", "m = {\"k\": [1, (2", "f(a, [b, {\"c\": (",
+	"for x in [1, 2 {", "x = a[1:(2", "))", "x = 1 +\n", "a = 'q\n", "f(1, 2))", "x = [1, 2]]", "# only a comment (", "x = 0x", "a.b.(c"}
+
 func (k c06) Run(c *mon.Ctx, workload string, i int64) {
 	drive.Init()
 	stmts, layouts := k.build(c, workload, i)
 	want := gt.DumpStmts(stmts)
 	mixed := mixedPrec(stmts)
 	for li, lay := range layouts {
+		if workload == "after-rejected" {
+			rej := c06Rejected[c.R.Intn(len(c06Rejected))]
+			func() {
+				defer func() { recover() }()
+				if _, err := parser.ParsePipeline("rejected.p", rej); err != nil {
+					c.Count("preceding_rejected_parses", 1)
+				}
+			}()
+		}
 		src := gt.Print(stmts, lay)
 		var got []*gt.T
 		var perr, cerr error
